@@ -2,14 +2,21 @@
 """
 rs2lean.py -- regenerate Lean definitions from the Rust source text of the crate.
 
-  rs2lean.py --src /repo/src --out /verif/lean/SLV/Gen [--only bi|mul]
+  rs2lean.py --src /repo/src --out /verif/lean/SLV/Gen [--only bi|mul] [--validate]
 
-Reads  <src>/bi.rs  and  <src>/mul.rs,  PARSES the bodies of the arithmetic functions (tokenizer +
-recursive-descent parser, below) and prints one Lean `def` per Rust function into
-  <out>/Bi.lean   (namespace SLV.Gen)       and   <out>/Mul.lean  (namespace SLV.Gen.Mul).
-The hand-written files SLV/Gen/BiTie.lean and SLV/Gen/MulTie.lean prove (kernel-checked) that every
-generated definition equals the hand-written model; an edit of any expression in the Rust text changes
-the generated term and the corresponding theorem stops checking.
+PARSES (tokenizer + recursive-descent parser, below) the bodies of the arithmetic functions and prints one Lean `def`
+per Rust function into
+  <out>/Bi.lean   (namespace SLV.Gen)      from  approx_ext.rs, errors.rs, bi.rs, convert.rs
+  <out>/Mul.lean  (namespace SLV.Gen.Mul)  from  mul.rs, mul/non_labeled.rs, mul/labeled.rs
+The hand-written files SLV/Gen/BiTie.lean and SLV/Gen/MulTie.lean prove (kernel-checked) that every generated
+definition equals the hand-written model (theorem gen_<lean name>_eq); an edit of any expression in the Rust text
+changes the generated term and the corresponding theorem stops checking.
+
+Exit status: 0 everything translated;  3 files written WITH HOLES: a function that cannot be translated (syntax outside
+the subset, a call of a generated function that is itself a hole, a failed convention guard of its source file, or --
+with --validate -- a generated definition that Lean rejects) gets no definition but a line
+`-- UNTRANSLATABLE <file> fn <name>: <reason>` (also on stderr, prefixed `rs2lean: `), so that exactly its tie theorem
+and the ties depending on it fail;  2 an output file could not be written at all (source missing, item scanner lost).
 
 Parsed Rust subset (sections 1-3; a general expression/statement parser; regexes are used only
 on TYPE texts -- impl headers, parameter types, where clauses -- never on a formula):
@@ -210,10 +217,28 @@ class Parser:
             while self.at("::"):
                 self.next()
                 segs.append(self.ident())
-            if len(segs) == 1 and not self.at("{") and not self.at("("):
+            if len(segs) == 1 and not self.at("(") and (not self.at("{") or not segs[0][:1].isupper()):
                 return ("pid", segs[0])
-            if self.at("{") or self.at("("):
-                self.fail("struct/tuple-struct pattern")
+            if self.at("{"):
+                self.next()
+                fields, rest_ = [], False
+                while not self.at("}"):
+                    if self.at(".."):
+                        self.next()
+                        rest_ = True
+                    else:
+                        f = self.ident()
+                        sub = None
+                        if self.at(":"):
+                            self.next()
+                            sub = self.pattern()
+                        fields.append((f, sub))
+                    if self.at(","):
+                        self.next()
+                self.next()
+                return ("pstruct", segs, fields, rest_)
+            if self.at("("):
+                self.fail("tuple-struct pattern")
             return ("ppath", segs)
         self.fail("pattern")
 
@@ -447,7 +472,16 @@ class Parser:
                 self.next()
                 continue
             if self.at("#"):
-                self.fail("attribute inside a body")
+                # `#[cfg(subjective_logic_verif)] stmt` : verification instrumentation that is compiled out of normal
+                # builds (the cfg is only set by the verification harness); the statement is dropped.
+                want = ["#", "[", "cfg", "(", "subjective_logic_verif", ")", "]"]
+                if [self.peek(o).v for o in range(7)] != want:
+                    self.fail("attribute inside a body")
+                for _ in want:
+                    self.next()
+                e = self.expr()
+                self.expect(";")
+                continue
             if self.at("let"):
                 self.next()
                 p = self.pattern()
@@ -871,8 +905,10 @@ class BiEmit(Emit):
     """result conventions: `-> $ft` : α ;  `-> Self` (panics through `new`) and `-> Result<Self,_>` :
     Except Label (BOp α) ;  `-> Result<(),_>` : Except Label Unit ;  BSimplex ≙ α × α × α."""
 
-    def __init__(self, item, owner):
+    def __init__(self, item, spec):
         Emit.__init__(self, item)
+        self.spec = spec
+        owner = spec.get("owner")
         self.owner = owner            # "BOpinion" | "BSimplex" | None (free function)
         r = item.ret
         if r == "$ft":
@@ -882,6 +918,8 @@ class BiEmit(Emit):
             self.rty = "Except Label (BOp α)" if owner == "BOpinion" else "Except Label (α × α × α)"
         elif r == "Result<(),InvalidValueError>":
             self.mode, self.rty = "except", "Except Label Unit"
+        elif r == "bool":
+            self.mode, self.rty = "scalar", "Bool"
         else:
             self.fail("return type `%s`" % r)
 
@@ -904,6 +942,9 @@ class BiEmit(Emit):
             elif ty in ("$ft", "V"):
                 sc[n] = lname(n)
                 binders.append("(%s : α)" % lname(n))
+            elif ty == "S" and self.spec.get("label_param") == n:
+                sc[n] = lname(n)            # `label: S` with S: Into<String>  ↦  a `Label`
+                binders.append("(%s : Label)" % lname(n))
             elif ty == "&[BSimplex<$ft>;2]":
                 sc[n + "[0]"] = "c0"
                 sc[n + "[1]"] = "c1"
@@ -1098,7 +1139,11 @@ class BiEmit(Emit):
             if st in ("x", "y", "c0", "c1") :
                 self.fail("local name `%s` clashing with a generated parameter name" % st)
         t = self.seq(body[1], 0, body[2], sc, set())
-        return "def %s {α : Type} [Scalar α] %s : %s :=\n%s\n" % (lean_name, " ".join(binders), self.rty, ind(t[0]))
+        tt = t[0]
+        if self.spec.get("callee_try_new"):
+            # `Self::try_new(b, d, u, a).unwrap()` : inside `new` the callee is the generated try_new
+            tt = tt.replace("BOp.tryNew", "SLV.Gen.try_new")
+        return "def %s {α : Type} [Scalar α] %s : %s :=\n%s\n" % (lean_name, " ".join(binders), self.rty, ind(tt))
 
 
 KINDS = {"num", "str", "path", "un", "bin", "field", "mcall", "call", "index", "try", "tuple", "paren", "array",
@@ -1125,6 +1170,101 @@ def walk_lets(e):
     elif isinstance(e, list):
         for x in e:
             yield from walk_lets(x)
+
+
+def subst(e, m):
+    """replace the one-segment paths named in m by the given ASTs (used to inline a small #[inline] fn)"""
+    if isinstance(e, tuple):
+        if len(e) == 2 and e[0] == "path" and len(e[1]) == 1 and e[1][0] in m:
+            return m[e[1][0]]
+        return tuple(subst(x, m) for x in e)
+    if isinstance(e, list):
+        return [subst(x, m) for x in e]
+    return e
+
+
+class BaseEmit(BiEmit):
+    """src/approx_ext.rs and src/errors.rs: predicates on one scalar and the two checkers.
+    `label: S` ↦ a `Label`; `Err(InvalidValueError(format!(.., label.into())))` ↦ `.error label` (an error is
+    identified with the label it was built from); a call of `is_in_range(a, b, c)` is inlined (it is
+    `#[inline]` in Rust), so that `ulps_eq!(v, V::zero())` / `ulps_eq!(v, V::one())` appear as such and follow
+    the macro convention `Scalar.isZero v` / `Scalar.isOne v`."""
+
+    def ex_special(self, e, sc):
+        if e[0] == "call" and e[1][0] == "path":
+            f = "::".join(e[1][1])
+            if f in ("V::zero", "V::one") and not e[2]:
+                return ("(Scalar.%s : α)" % f[3:], P_ATOM)
+            if f in self.spec.get("inline", ()):
+                it = find(self.items, f, r"^$")
+                names = [p_[0][1] for p_ in it.params]
+                b = it.body
+                if len(names) != len(e[2]) or b[1] or b[2] is None:
+                    self.fail("inlining of `%s`" % f)
+                return self.ex(subst(b[2], dict(zip(names, e[2]))), sc)
+            if f in ("approx_ext::in_unit_interval", "approx_ext::is_one", "approx_ext::is_zero") and len(e[2]) == 1:
+                return app("SLV.Gen." + f.split("::")[1], self.ex(e[2][0], sc))
+            if f == "Err" and len(e[2]) == 1 and self.mode == "except":
+                a = e[2][0]
+                lp = self.spec.get("label_param")
+                if a[0] == "call" and a[1] == ("path", ["InvalidValueError"]) and len(a[2]) == 1 \
+                        and a[2][0][0] == "macro" and a[2][0][1] == "format" and len(a[2][0][2]) == 2 \
+                        and a[2][0][2][0][0] == "str" and a[2][0][2][1] == ("mcall", ("path", [lp]), "into", []):
+                    return app("Except.error", (sc[lp], P_ATOM))
+        return BiEmit.ex_special(self, e, sc)
+
+
+class ConvEmit(Emit):
+    """src/convert.rs: BOpinion <-> Opinion1d<_, 2>.  `value.simplex.0` of a BOpinion is the Simplex1d
+    ⟨[b, d], u⟩ (pinned by the guards on BSimplex::new_unchecked / b / d / u)."""
+
+    def __init__(self, item, spec):
+        Emit.__init__(self, item)
+        self.spec = spec
+
+    def define(self, lean_name):
+        hdr = self.item.ctx.split(" | ")[-1]
+        m = re.match(r"impl From < (&? ?)(BOpinion < \$ft >|Opinion1d < \$ft , 2 >) > for (BOpinion < \$ft >|Opinion1d < \$ft , 2 >)$", hdr)
+        if not m or len(self.item.params) != 1 or self.item.params[0][0][0] != "pid":
+            self.fail("impl header `%s`" % hdr)
+        self.src = "bop" if m.group(2).startswith("BOpinion") else "op2"
+        self.dst = "bop" if m.group(3).startswith("BOpinion") else "op2"
+        want_ty = ("&" if m.group(1) else "") + m.group(2).replace(" ", "")
+        n, ty = self.item.params[0][0][1], self.item.params[0][1]
+        if ty != want_ty or self.item.ret != "Self":
+            self.fail("signature")
+        self.pn = n
+        sc = {n: lname(n)}
+        body = self.item.body
+        t = self.seq(body[1], 0, body[2], sc, set())
+        lt = {"bop": "BOp α", "op2": "Opinion α 2"}
+        return "def %s {α : Type} [Scalar α] (%s : %s) : %s :=\n%s\n" % (lean_name, lname(n), lt[self.src], lt[self.dst], ind(t[0]))
+
+    def isval(self, e):
+        return e == ("path", [self.pn])
+
+    def ex_special(self, e, sc):
+        v = lname(self.pn)
+        k = e[0]
+        if self.src == "bop":
+            if k == "field" and self.isval(e[1]) and e[2] == "base_rate":
+                return (v + ".a", P_ATOM)
+            if k == "struct" and e[1] == ["Opinion1d"] and [f for f, _ in e[2]] == ["simplex", "base_rate"] \
+                    and e[2][0][1] == ("field", ("field", ("path", [self.pn]), "simplex"), "0") \
+                    and e[2][1][1][0] == "array" and len(e[2][1][1][1]) == 2:
+                a0, a1 = [self.ex(x, sc)[0] for x in e[2][1][1][1]]
+                return ("Opinion.mk' (Simplex.mk #v[%s.b, %s.d] %s.u) #v[%s, %s]" % (v, v, v, a0, a1), P_APP)
+        else:
+            if k == "mcall" and self.isval(e[1]) and e[2] == "u" and not e[3]:
+                return (v + ".u", P_ATOM)
+            if k == "index" and e[2][0] == "num" and e[2][1] in ("0", "1"):
+                if e[1] == ("mcall", ("path", [self.pn]), "b", []):
+                    return ("%s.b[%s]" % (v, e[2][1]), P_ATOM)
+                if e[1] == ("field", ("path", [self.pn]), "base_rate"):
+                    return ("%s.a[%s]" % (v, e[2][1]), P_ATOM)
+            if k == "call" and e[1] == ("path", ["BOpinion", "new_unchecked"]) and len(e[2]) == 4:
+                return app("BOp.mk", *[self.ex(x, sc) for x in e[2]])
+        self.fail("expression form `%s`" % describe(e))
 
 
 def find(items, name, ctx_re):
@@ -1166,6 +1306,8 @@ GUARDS = {
         ("u", OPREF, ["self"], "{ self . simplex . uncertainty }"),
         ("b", OPN, ["self"], "{ & self . simplex . belief }"),
         ("u", OPN, ["self"], "{ self . simplex . uncertainty }"),
+        ("new_unchecked", OPN, ["b", "u", "a"],
+         "{ Self { simplex : Simplex :: new_unchecked ( b , u ) , base_rate : a } }"),
         ("as_ref", r"^impl < S , T > OpinionBase < S , T >$", ["self"],
          "{ OpinionBase { simplex : & self . simplex , base_rate : & self . base_rate } }"),
     ],
@@ -1186,56 +1328,98 @@ def check_guards(items, fname, text):
     return spans
 
 
+IMPL_BOP = r"impl_bop \| impl BOpinion"
 BI_TARGETS = [
-    # (lean name, rust fn, regex on the enclosing impl header, owner)
-    ("check_simplex", "check_simplex", r"^$", None),
-    ("check_base_rate", "check_base_rate", r"^$", None),
-    ("BSimplex_try_new", "try_new", r"impl_simplex \| impl BSimplex", "BSimplex"),
-    ("try_new", "try_new", r"impl_bop \| impl BOpinion", "BOpinion"),
-    ("new", "new", r"impl_bop \| impl BOpinion", "BOpinion"),
-    ("projection", "projection", r"impl_bop \| impl BOpinion", "BOpinion"),
-    ("mul", "mul", r"impl_bop \| impl BOpinion", "BOpinion"),
-    ("comul", "comul", r"impl_bop \| impl BOpinion", "BOpinion"),
-    ("cfuse", "cfuse", r"impl_bop \| impl BOpinion", "BOpinion"),
-    ("afuse", "afuse", r"impl_bop \| impl BOpinion", "BOpinion"),
-    ("wfuse", "wfuse", r"impl_bop \| impl BOpinion", "BOpinion"),
-    ("deduce", "deduce", r"impl_bop \| impl BOpinion", "BOpinion"),
-    ("trans_unc", "trans_unc", r"impl_bop \| impl BOpinion", "BOpinion"),
-    ("trans_opp", "trans_opp", r"impl_bop \| impl BOpinion", "BOpinion"),
-    ("trans_bsr", "trans_bsr", r"impl_bop \| impl BOpinion", "BOpinion"),
-]
+    # (lean name, rust fn, regex on the enclosing impl header, spec)
+    ("check_simplex", "check_simplex", r"^$", {"owner": None}),
+    ("check_base_rate", "check_base_rate", r"^$", {"owner": None}),
+    ("BSimplex_try_new", "try_new", r"impl_simplex \| impl BSimplex", {"owner": "BSimplex"}),
+    ("try_new", "try_new", IMPL_BOP, {"owner": "BOpinion"}),
+    ("new", "new", IMPL_BOP, {"owner": "BOpinion", "callee_try_new": True}),
+] + [(f, f, IMPL_BOP, {"owner": "BOpinion"}) for f in
+     ("projection", "mul", "comul", "cfuse", "afuse", "wfuse", "deduce", "trans_unc", "trans_opp", "trans_bsr")]
 
 
 def sha(text):
     return hashlib.sha256(text.encode()).hexdigest()
 
 
-def gen_bi(src_dir):
-    fname = "bi.rs"
-    text = open(os.path.join(src_dir, fname)).read()
-    items = scan_items(text, fname)
-    defs, spans = [], check_guards(items, fname, text)
-    for lean_name, rust, ctx, owner in BI_TARGETS:
-        it = find(items, rust, ctx)
-        span = text[it.span[0]:it.span[1]]
-        spans.append(span)
-        em = BiEmit(it, owner)
-        if lean_name == "new":
-            # `Self::try_new(b, d, u, a).unwrap()` : inside `new` the callee is the generated try_new
-            d = em.define("new").replace("BOp.tryNew", "SLV.Gen.try_new")
-        else:
-            d = em.define(lean_name)
-        line = text.count("\n", 0, it.span[0]) + 1
-        defs.append("/-- `%s` (src/%s:%d), sha256 of the item text %s -/\n%s"
-                    % (rust, fname, line, sha(span)[:16], d))
-    head = ("/-\n  GENERATED by /verif/tools/rs2lean.py from src/%s -- do not edit, regenerated on every run.\n"
-            "  source-span sha256: %s\n"
-            "  Conventions: self ↦ x, rhs ↦ y, cond[i] ↦ cᵢ : α × α × α (b, d, u); Self::new / Self::try_new ↦\n"
-            "  BOp.tryNew (panic ≙ error); `E?;` / `E.unwrap();` ↦ match on Except; an `if` statement that only\n"
-            "  assigns deferred `let`s receives a copy of the continuation in every branch.\n"
-            "  Tie theorems: SLV/Gen/BiTie.lean.\n-/\n"
-            "import SLV.Model.Bi\nnamespace SLV.Gen\nopen Scalar\n\n") % (fname, sha("\n".join(spans)))
-    return head + "\n".join(defs) + "\nend SLV.Gen\n"
+class Fatal(Exception):
+    """nothing can be written for an output file (source missing, item scanner lost)"""
+
+
+def reason_of(e):
+    m = re.match(r"^[^:]+: fn [^:]+: (.*)$", str(e), flags=re.S)
+    return (m.group(1) if m else str(e)).replace("\n", " ")
+
+
+def generate(out_name, src_dir, forced=None):
+    """-> (lean text, holes) where holes = [(source file, lean name, reason)].
+    A function that cannot be translated (or that calls a generated function that could not be) gets NO
+    definition, only a comment line `-- UNTRANSLATABLE ..`: its tie theorem then fails with an unknown
+    identifier while every other function is still generated and tied."""
+    cfg = OUTPUTS[out_name]
+    ns = cfg["ns"]
+    defs, spans, holes, failed = [], [], [], {}
+    cache = {}
+
+    def load(fname):
+        if fname not in cache:
+            try:
+                text = open(os.path.join(src_dir, fname)).read()
+            except OSError as e:
+                raise Fatal("cannot read source: %s" % e)
+            try:
+                cache[fname] = (text, scan_items(text, fname))
+            except Unsupported as e:
+                raise Fatal("item scanner lost in %s: %s" % (fname, e))
+        return cache[fname]
+    for fname, targets, guard_files in cfg["units"]:
+        text, items = load(fname)
+        poison = None
+        try:
+            for gf in guard_files:
+                gtext, gitems = load(gf)
+                sp = check_guards(gitems, gf, gtext)
+                if gf == fname:
+                    spans += sp
+        except Unsupported as e:
+            sys.stderr.write("rs2lean: %s: CONVENTION GUARD FAILED, every function of this file becomes untranslatable: %s\n"
+                             % (fname, e))
+            m = re.match(r"^[^:]+: (fn [^:]+): ", str(e))
+            poison = "convention guard failed in %s (%s): accessors are translated by convention" % (fname, m.group(1) if m else "?")
+        for lean_name, rust, ctx, spec in targets:
+            why, d, line, span = poison, None, 0, ""
+            if why is None and forced and lean_name in forced:
+                why = forced[lean_name]
+            try:
+                it = find(items, rust, ctx)
+                span = text[it.span[0]:it.span[1]]
+                spans.append(span)
+                line = text.count("\n", 0, it.span[0]) + 1
+                if why is None:
+                    em = spec["emit"](it, spec)
+                    em.items = items
+                    d = em.define(lean_name)
+                    for f in failed:
+                        if re.search(r"(?<![\w.])%s\.%s\b(?!\.)" % (re.escape(ns), re.escape(f)), d):
+                            why = "calls the generated function `%s`, which is untranslatable" % f
+                            break
+            except Unsupported as e:
+                why = reason_of(e)
+            if why is not None:
+                failed[lean_name] = why
+                holes.append((fname, lean_name, why))
+                defs.append("-- UNTRANSLATABLE %s fn %s%s: %s\n-- (no definition of %s.%s: its tie theorem gen_%s_eq must fail)\n"
+                            % (fname, lean_name, "" if rust == lean_name else " (rust `%s`)" % rust, why, ns, lean_name, lean_name))
+                continue
+            defs.append("/-- `%s` (src/%s:%d), sha256 of the item text %s -/\n%s"
+                        % (rust, fname, line, sha(span)[:16], d))
+    head = ("/-\n  GENERATED by /verif/tools/rs2lean.py from %s -- do not edit, regenerated on every run.\n"
+            "  source-span sha256: %s\n%s-/\n%s\nnamespace %s\nopen Scalar\n\n") % (
+        ", ".join("src/" + u[0] for u in cfg["units"]), sha("\n".join(spans)), cfg["doc"],
+        "\n".join("import " + i for i in cfg["imports"]), ns)
+    return head + "\n".join(defs) + "\nend %s\n" % ns, holes
 
 
 # ------------------------------------------------------------------------------------------------
@@ -1243,8 +1427,13 @@ def gen_bi(src_dir):
 # ------------------------------------------------------------------------------------------------
 # value kinds:  S scalar | B bool | ("V", dim, elem) vector (a table is ("V", d, S)) | ("Sx", d) simplex |
 #               ("Op", d) opinion (flat b,u,a) | ("I", d) index | ("Fuse",) | ("Opt", t)
-S, B, FUSE = ("S",), ("B",), ("Fuse",)
+S, B, FUSE, UNIT = ("S",), ("B",), ("Fuse",), ("Unit",)
 NS = "SLV.Gen.Mul."
+
+
+def pd(d):
+    """a dimension as an argument: `n`, `(n0 * n1)`"""
+    return "(" + d + ")" if " " in d else d
 
 
 def tab(d):
@@ -1259,17 +1448,26 @@ def lean_type(t):
     if t == FUSE:
         return "FuseOp"
     if t[0] == "V":
-        return "Tab α %s" % t[1] if t[2] == S else "Vector (%s) %s" % (lean_type(t[2]), t[1])
+        return "Tab α %s" % pd(t[1]) if t[2] == S else "Vector (%s) %s" % (lean_type(t[2]), pd(t[1]))
     if t[0] == "Sx":
-        return "Simplex α %s" % t[1]
+        return "Simplex α %s" % pd(t[1])
     if t[0] == "Op":
-        return "Opinion α %s" % t[1]
+        return "Opinion α %s" % pd(t[1])
     if t[0] == "Opt":
         return "Option (%s)" % lean_type(t[1])
+    if t == UNIT:
+        return "Unit"
+    if t[0] == "Exc":
+        return "Except Label (%s)" % lean_type(t[1])
+    if t[0] == "Thunk":
+        return "Unit → %s" % lean_type(t[1])
     raise Unsupported("internal: type %r" % (t,))
 
 
-INDEX_DIM = {"Idx": "n", "X": "n", "Y": "m"}
+INDEX_DIM = {"Idx": "n", "X": "n", "Y": "m", "X1": "n1", "X2": "n2", "X1X2": "n1 * n2"}
+ALL_DIMS = ("n", "m", "n0", "n1", "n2")
+MUL_LABELS = {'"u"': "Label.u", '"sum(b) + u"': "Label.sumBU", '"sum(a)"': "Label.sumA",
+              '"b[{i:?}]"': "Label.b", '"a[{i:?}]"': "Label.a"}
 
 
 class Scope:
@@ -1301,6 +1499,10 @@ class MulEmit(Emit):
         self.spec = spec
         self.dims = self.type_dims()
         self.used_dims = set()
+        self.except_mode = spec["rty"].startswith("Except ")
+        self.in_loop = False
+        self.in_closure = False
+        self.closure_raised = False
 
     # -- generic parameters -> dimensions ---------------------------------------------------
     def type_dims(self):
@@ -1318,6 +1520,9 @@ class MulEmit(Emit):
         t = re.sub(r"^&('\w+ )?(mut)?", "", ty)
         if t == "V":
             return S
+        m = re.match(r"\[V;(\w+)\]$", t)
+        if m and m.group(1) in self.dims:
+            return tab(self.dims[m.group(1)])
         if t == "FuseOp":
             return FUSE
         if t in self.dims:
@@ -1327,10 +1532,25 @@ class MulEmit(Emit):
         m = re.match(r"Simplex<(\w+),V>$", t)
         if m and m.group(1) in self.dims:
             return ("Sx", self.dims[m.group(1)])
+        m = re.match(r"OpinionRefD1<(?:'\w+ ,)?(\w+),V>$", t)
+        if m and m.group(1) in self.dims:
+            return ("Op", self.dims[m.group(1)])
+        m = re.match(r"Opinion1dRef<(?:'\w+ ,)?V,(\w+)>$", t)
+        if m and m.group(1) in self.dims:
+            return ("Op", self.dims[m.group(1)])
         m = re.match(r"(?:OpinionRef<'\w+ ,|Opinion<)(\w+),V>$", t)
         if m and m.group(1) in self.dims:
             return ("Op", self.dims[m.group(1)])
         self.fail("parameter type `%s`" % ty)
+
+    def rust_class(self, ty):
+        """coarse Rust type of a parameter, for the resolution of the `fuse` / `fuse_assign` overloads"""
+        t = ty.replace(" ", "")
+        for pre, cls in (("OpinionRef<", "OpinionRef"), ("&mutOpinion<", "&mutOpinion"), ("&mutSimplex<", "&mutSimplex"),
+                         ("&Opinion<", "&Opinion"), ("&Simplex<", "&Simplex")):
+            if re.sub(r"^&'\w+", "&", t).startswith(pre):
+                return cls
+        return None
 
     def self_type(self):
         m = re.search(r"impl (?:< [^|]*? > )?(?:[\w:]+ (?:< .*? > )?for )?(&? ?(?:'\w+ )?\w+)(?: < ([^|]*?) >)?(?: where|$)",
@@ -1344,6 +1564,8 @@ class MulEmit(Emit):
         args = [a for a in args if a and not a.startswith("'")]
         if head == "Simplex" and args and args[0] in self.dims:
             return ("Sx", self.dims[args[0]])
+        if head == "Simplex1d" and len(args) == 2 and args[1] in self.dims:
+            return ("Sx", self.dims[args[1]])
         if head in ("OpinionRef", "Opinion") and args and args[0] in self.dims:
             return ("Op", self.dims[args[0]])
         if head in self.dims and head in self.spec.get("cond", ()):
@@ -1385,6 +1607,8 @@ class MulEmit(Emit):
                 p = P_AND if op == "&&" else P_OR
                 return (paren(l[:2], p) + " " + op + " " + paren(r[:2], p + 1), p, B)
             self.fail("binary operator `%s`" % op)
+        if k == "tuple" and not e[1]:
+            return ("()", P_ATOM, UNIT)
         if k == "path" and len(e[1]) == 1:
             n = e[1][0]
             if n in sc:
@@ -1405,6 +1629,16 @@ class MulEmit(Emit):
             v = self.ex3(e[2][0], sc)
             if v[2] == FUSE:
                 return ("(match %s with | %s => true | _ => false)" % (v[0], self.FUSEOPS[e[2][1][1][1]]), P_ATOM, B)
+        if k == "index" and e[2][0] == "num":
+            v = self.ex3(e[1], sc)
+            parts = v[2][1].split(" * ") if v[2][0] == "I" else []
+            if len(parts) in (2, 3) and e[2][1] in [str(j) for j in range(len(parts))]:
+                # `d[j]` of a multi-index of an MArr2 / MArr3 : the j-th component of the row-major split of the
+                # flat index (`idx2` / `idx3` of SLV/Model/Prod.lean)
+                j = int(e[2][1])
+                proj = ([".1", ".2"] if len(parts) == 2 else [".1", ".2.1", ".2.2"])[j]
+                return ("(idx%d %s)%s" % (len(parts), v[0], proj), P_ATOM, ("I", parts[j]))
+            self.fail("indexing `%s` by a literal" % describe(e))
         if k == "index":
             v, i = self.ex3(e[1], sc), self.ex3(e[2], sc)
             if v[2][0] != "V" or i[2] != ("I", v[2][1]):
@@ -1420,6 +1654,16 @@ class MulEmit(Emit):
             fin = self.iter_final(e, sc)
             if fin is not None:
                 return fin
+            if e[2] == "unwrap_or_else" and len(e[3]) == 1 and e[3][0][0] == "closure" and not e[3][0][1]:
+                r = self.ex3(e[1], sc)
+                d_ = self.closure_body(e[3][0][2], sc)
+                if r[2][0] == "Opt" and r[2][1] == d_[2]:
+                    return ("(match %s with | some v => v | none => %s)" % (r[0], d_[0]), P_ATOM, d_[2])
+                self.fail("`unwrap_or_else` on kinds %r / %r" % (r[2], d_[2]))
+            if e[2] == "unwrap" and not e[3] and self.except_mode and self.iterator(e[1], sc) is None:
+                r = self.ex3(e[1], sc)
+                if r[2][0] == "Exc":
+                    return r      # `.unwrap()` of a Result in a function whose panic is modelled as the error
             if self.iterator(e[1], sc) is not None:
                 self.fail("iterator adaptor / consumer `.%s(..)` in `%s`" % (e[2], describe(e)))
             if e[1][0] == "tuple" and len(e[1][1]) == 2 and e[2] == "into" and not e[3]:
@@ -1438,6 +1682,14 @@ class MulEmit(Emit):
                 b, u = self.ex3(e[2][0][1], sc), self.ex3(e[2][1][1], sc)
                 if b[2][0] == "V" and b[2][2] == S and u[2] == S:
                     return app("Simplex.mk", b[:2], u[:2]) + (("Sx", b[2][1]),)
+            if (e[1] == ["Opinion1d"] or (e[1] == ["Self"] and self.selfkind == "Op")) and fs == ["simplex", "base_rate"]:
+                s_, a_ = self.ex3(e[2][0][1], sc), self.ex3(e[2][1][1], sc)
+                if s_[2][0] == "Sx" and a_[2] == tab(s_[2][1]):
+                    return app("Opinion.mk'", s_[:2], a_[:2]) + (("Op", s_[2][1]),)
+        if k == "mcall" and e[2] == "unwrap" and not e[3] and self.except_mode:
+            r = self.ex3(e[1], sc)
+            if r[2][0] == "Exc":
+                return r          # `.unwrap()` of a Result in a function whose panic is modelled as the error
         self.fail("expression form `%s`" % describe(e))
 
     def block_type(self, b, sc):
@@ -1449,6 +1701,11 @@ class MulEmit(Emit):
         for st in b[1]:
             if st[0] == "let" and st[2] is not None and st[1][0] == "pid":
                 sc = sc.bind(st[1][1], lname(st[1][1]), self.ex3(st[2], sc)[2])
+            if st[0] == "let" and st[2] is not None and st[1][0] == "pstruct" and st[1][2] == [("simplex", None)]:
+                k_ = self.ex3(st[2], sc)[2]
+                k_ = k_[1] if k_[0] == "Exc" else k_
+                if k_[0] == "Op":
+                    sc = sc.bind("simplex", "simplex", ("Sx", k_[1]))
         if b[2] is None:
             self.fail("block without a value")
         return self.ex3(b[2], sc)[2]
@@ -1491,9 +1748,88 @@ class MulEmit(Emit):
                 return app(NS + "OpinionRef_" + name, r[:2]) + (B,)
             if call and not a and name == "projection":
                 return app(NS + "OpinionRef_projection", r[:2]) + (tab(d),)
+        if ty[0] == "Op" and call and len(a) == 1 and name == "discount" and a[0][2] == S:
+            return app(NS + "OpinionRef_discount", r[:2], a[0][:2]) + (ty,)
+        if ty == FUSE and call and name in ("fuse", "fuse_assign") and len(a) == 2:
+            return self.fuse_call(e, r, name, args, a, sc)
+        if ty[0] == "Op" and call and name in ("deduce", "deduce_with") and a and a[0][2][0] == "V" \
+                and a[0][2][2][0] == "Sx" and a[0][2][1] == ty[1]:
+            rt_ = ("Op", a[0][2][2][1])
+            if name == "deduce" and len(a) == 1:
+                return app(NS + "OpinionRef_deduce", r[:2], a[0][:2]) + (("Opt", rt_),)
+            if name == "deduce_with" and len(a) == 2 and a[1][2] == ("Thunk", tab(rt_[1])):
+                return app(NS + "OpinionRef_deduce_with", r[:2], a[0][:2], a[1][:2]) + (rt_,)
+        if ty[0] in ("Sx", "Op") and call and name in ("abduce", "abduce_with") and len(a) >= 2 \
+                and a[0][2][0] == "V" and a[0][2][2] == ("Sx", ty[1]) and a[1][2] == tab(a[0][2][1]):
+            pre = NS + ("" if ty[0] == "Sx" else "OpinionRef_")
+            rt_ = ("Op", a[0][2][1])
+            if name == "abduce" and len(a) == 2:
+                return app(pre + "abduce", r[:2], a[0][:2], a[1][:2]) + (("Opt", rt_),)
+            if name == "abduce_with" and len(a) == 3 and a[2][2] == tab(ty[1]):
+                return app(pre + "abduce_with", r[:2], a[0][:2], a[1][:2], a[2][:2]) + (rt_,)
+        if ty[0] == "Opt" and call and name == "as_ref" and not a:
+            return r
+        if ty[0] == "Opt" and ty[1] is not None and call and name == "unwrap_or" and len(a) == 1 and a[0][2] == ty[1]:
+            return ("(match %s with | some v => v | none => %s)" % (rt, a[0][0]), P_ATOM, ty[1])
+        if ty[0] == "V" and ty[2][0] == "Sx" and call and name == "inverse" and len(a) == 2 \
+                and a[0][2] == tab(ty[1]) and a[1][2] == tab(ty[2][1]):
+            return app(NS + "inverse", r[:2], a[0][:2], a[1][:2]) + (("V", ty[2][1], ("Sx", ty[1])),)
+        if ty[0] == "Opt" and ty[1] is not None and call and name == "unwrap_or_else" and len(a) == 1 \
+                and a[0][2] == ("Thunk", ty[1]):
+            return ("(match %s with | some v => v | none => %s ())" % (rt, a[0][0]), P_ATOM, ty[1])
         if ty == S and call and len(a) == 1 and name in ("min", "max") and a[0][2] == S:
             return app("Scalar." + name, r[:2], a[0][:2]) + (S,)
         self.fail("member `%s` on a value of kind %r" % (describe(e), ty))
+
+    # the overloads of `Fuse::fuse` / `FuseAssign::fuse_assign` (resolved on the Rust types of the arguments)
+    FUSE_IMPLS = {
+        ("fuse", "OpinionRef", "OpinionRef"): ("fuse", True, "Op"),
+        ("fuse", "&Opinion", "&Simplex"): ("fuse_opinion_simplex", False, "Op"),
+        ("fuse", "&Opinion", "&Opinion"): ("fuse_opinion_opinion", True, "Op"),
+        ("fuse", "OpinionRef", "&Simplex"): ("fuse_ref_simplex", False, "Op"),
+        ("fuse", "&Simplex", "&Simplex"): ("fuse_simplex_simplex", False, "OptSx"),
+        ("fuse_assign", "&mutOpinion", "&Opinion"): ("fuse_assign_opinion_opinion", True, "Op"),
+        ("fuse_assign", "&mutOpinion", "OpinionRef"): ("fuse_assign_opinion_ref", True, "Op"),
+        ("fuse_assign", "&mutOpinion", "&Simplex"): ("fuse_assign_opinion_simplex", False, "Op"),
+        ("fuse_assign", "&mutSimplex", "&Simplex"): ("fuse_assign_simplex_simplex", False, "OptSx"),
+    }
+
+    def rust_kind(self, e):
+        if e[0] == "paren":
+            return self.rust_kind(e[1])
+        if e[0] == "path" and len(e[1]) == 1:
+            return self.param_rust.get(e[1][0])
+        if e[0] == "mcall" and not e[3] and e[2] == "clone":
+            return self.rust_kind(e[1])
+        if e[0] == "mcall" and not e[3] and e[2] == "as_ref":
+            return "OpinionRef" if self.rust_kind(e[1]) in ("&Opinion", "&mutOpinion") else None
+        if e[0] == "call" and e[1] == ("path", ["OpinionRef", "from"]):
+            return "OpinionRef"
+        if e[0] == "un" and e[1] == "&" and e[2][0] == "paren" and e[2][1][0] == "un" and e[2][1][1] == "*":
+            return {"&mutSimplex": "&Simplex", "&mutOpinion": "&Opinion"}.get(self.rust_kind(e[2][1][2]))
+        return None
+
+    def fuse_call(self, e, r, name, args, a, sc):
+        key = (name, self.rust_kind(args[0]), self.rust_kind(args[1]))
+        if key not in self.FUSE_IMPLS:
+            self.fail("overload of `%s` for argument types %r" % (describe(e), key[1:]))
+        fn, needs_same, res = self.FUSE_IMPLS[key]
+        extra = []
+        if needs_same:
+            # are the two base rates the same object?  syntactically `(rhs, lhs.base_rate)`: yes; two parameters: the
+            # caller's `same`; anything else is refused
+            b = args[1]
+            a0 = args[0][1] if args[0][0] == "mcall" and args[0][2] == "clone" else args[0]
+            if b[0] == "call" and b[1] == ("path", ["OpinionRef", "from"]) and len(b[2]) == 1 and b[2][0][0] == "tuple" \
+                    and len(b[2][0][1]) == 2 and b[2][0][1][1] == ("field", a0, "base_rate"):
+                extra = [("true", P_ATOM)]
+            elif "same_arg" in self.spec:
+                extra = [(self.spec["same_arg"], P_ATOM)]
+            else:
+                self.fail("identity of the base-rate objects in `%s`" % describe(e))
+        d = a[0][2][1]
+        kind = ("Op", d) if res == "Op" else ("Opt", ("Sx", d))
+        return app(NS + fn, r[:2], *(extra + [a[0][:2], a[1][:2]])) + (kind,)
 
     def scalar_const(self, f):
         return {"V::one": "(Scalar.one : α)", "V::zero": "(Scalar.zero : α)"}.get(f)
@@ -1517,10 +1853,22 @@ class MulEmit(Emit):
             if it and it["kind"] == "vals" and it["map"] and not it["filter"]:
                 var, body = it["map"]
                 return ("Vector.map (fun %s => %s) %s" % (var, body[0], it["src"]), P_APP, ("V", it["dim"], body[2]))
+            if it and it["kind"] == "zip" and it["map"] and it["dim"] == self.dims[segs[0]]:
+                return ("Vector.ofFn %s" % self.lam(it, "map"), P_LOW, ("V", it["dim"], it["map"][1][2]))
         if f in ("OpinionRef::from", "Opinion::from") and len(args) == 1 and args[0][0] == "tuple" and len(args[0][1]) == 2:
             s_, a_ = self.ex3(args[0][1][0], sc), self.ex3(args[0][1][1], sc)
             if s_[2][0] == "Sx" and a_[2] == tab(s_[2][1]):
                 return app("Opinion.mk'", s_[:2], a_[:2]) + (("Op", s_[2][1]),)
+        if f in ("check_unit_interval", "check_is_one") and len(args) == 2 :
+            a0 = self.ex3(args[0], sc)
+            if a0[2] != S:
+                self.fail("call `%s`" % describe(e))
+            lab = args[1]
+            key = lab[1] if lab[0] == "str" else (lab[2][0][1] if lab[0] == "macro" and lab[1] == "format"
+                                                     and len(lab[2]) == 1 and lab[2][0][0] == "str" else None)
+            if key not in MUL_LABELS:
+                self.fail("error label `%s`" % describe(lab))
+            return app("checkUnit" if f == "check_unit_interval" else "checkOne", a0[:2], (MUL_LABELS[key], P_ATOM)) + (("Exc", UNIT),)
         a = [self.ex3(x, sc) for x in args]
         if f == "Simplex::normalized" and len(a) == 2 and a[0][2][0] == "V" and a[1][2] == S:
             return app(NS + "Simplex_normalized", a[0][:2], a[1][:2]) + (("Sx", a[0][2][1]),)
@@ -1540,6 +1888,53 @@ class MulEmit(Emit):
         if f == "compute_base_rate" and [x[2][0] for x in a] == ["Fuse", "Op", "Op"] and "same_arg" in self.spec:
             # pointer identity of the two base-rate objects is decided by the caller's arguments: parameter `same`
             return app(NS + "compute_base_rate", a[0][:2], (self.spec["same_arg"], P_ATOM), a[1][:2], a[2][:2]) + (tab(a[1][2][1]),)
+        if f == "check_simplex" and len(a) == 2 and a[0][2][0] == "V" and a[0][2][2] == S and a[1][2] == S:
+            return app(NS + "multi_check_simplex", a[0][:2], a[1][:2]) + (("Exc", UNIT),)
+        if f == "check_base_rate" and len(a) == 1 and a[0][2][0] == "V" and a[0][2][2] == S:
+            return app(NS + "multi_check_base_rate", a[0][:2]) + (("Exc", UNIT),)
+        if f == "Ok" and len(args) == 1:
+            if args[0] == ("tuple", []):
+                return ("Except.ok ()", P_APP, ("Exc", UNIT))
+            return app("Except.ok", a[0][:2]) + (("Exc", a[0][2]),)
+        if f == "Self::new_unchecked" and self.selfkind == "Op" and len(a) == 3 and a[0][2][0] == "V" \
+                and a[1][2] == S and a[2][2] == a[0][2]:
+            return app("Opinion.mk", a[0][:2], a[1][:2], a[2][:2]) + (("Op", a[0][2][1]),)
+        if f == "Self::try_new" and self.selfkind == "Sx" and len(a) == 2:
+            return app(NS + "Simplex_try_new", a[0][:2], a[1][:2]) + (("Exc", ("Sx", a[0][2][1])),)
+        if f == "Self::try_new" and self.selfkind == "Op" and len(a) == 3:
+            return app(NS + "Opinion_try_new", a[0][:2], a[1][:2], a[2][:2]) + (("Exc", ("Op", a[0][2][1])),)
+        if f == "Opinion::new" and len(a) == 3 and a[0][2][0] == "V" and a[1][2] == S:
+            return app(NS + "Opinion_new", a[0][:2], a[1][:2], a[2][:2]) + (("Exc", ("Op", a[0][2][1])),)
+        if f in ("MArr2::product2", "MArr3::product3", "MArrD2::product2", "MArrD3::product3",
+                 "product2_iter", "product3_iter") and len(a) == int(f[f.index("product") + 7]) \
+                and all(x[2][0] == "V" and x[2][2] == S for x in a):
+            # the outer product of the multi_array crate (`productN_iter`: the iterator over its entries), row-major
+            # ↦ `outer2` / `outer3` of SLV/Model/Prod.lean
+            d = " * ".join(x[2][1] for x in a)
+            if "::" in f and d != self.dims.get(f.split("::")[0]):
+                self.fail("shape of `%s`" % describe(e))
+            return app("outer%d" % len(a), *[x[:2] for x in a]) + (tab(self.dim(d)),)
+        if f == "Opinion::normalized" and len(a) == 3 and a[0][2][0] == "V" and a[1][2] == S and a[2][2] == a[0][2]:
+            return app(NS + "Opinion_normalized", a[0][:2], a[1][:2], a[2][:2]) + (("Op", a[0][2][1]),)
+        if f == "Product2::product2" and len(a) == 2:
+            # trait-dispatched: on two tables it is the outer product of the multi_array crate; on two opinions the
+            # implementation of the family the function is instantiated for (spec "family")
+            if all(x[2][0] == "V" and x[2][2] == S for x in a):
+                return app("outer2", a[0][:2], a[1][:2]) + (tab(self.dim(a[0][2][1] + " * " + a[1][2][1])),)
+            if all(x[2][0] == "Op" for x in a) and self.spec.get("family") in ("unlabeled", "labeled"):
+                d = self.dim(a[0][2][1] + " * " + a[1][2][1])
+                if self.spec["family"] == "unlabeled":
+                    return app(NS + "product2", a[0][:2], a[1][:2]) + (("Exc", ("Op", d)),)
+                return app(NS + "product2_labeled", a[0][:2], a[1][:2]) + (("Op", d),)
+        if f == "mbr" and len(a) == 2 and a[0][2][0] == "V" and a[0][2][2] == S and a[1][2][0] == "V" \
+                and a[1][2][2][0] == "Sx" and a[1][2][1] == a[0][2][1]:
+            return app(NS + "mbr", a[0][:2], a[1][:2]) + (("Opt", tab(a[1][2][2][1])),)
+        if f == "deduce_of" and len(a) == 3 and a[0][2][0] == "Op" and a[1][2] == ("V", a[0][2][1], ("Sx", a[2][2][1])) \
+                and a[2][2][0] == "V" and a[2][2][2] == S:
+            return app(NS + "deduce_of", a[0][:2], a[1][:2], a[2][:2]) + (("Op", a[2][2][1]),)
+        if f == "InverseCondition::inverse" and len(a) == 3 and a[0][2][0] == "V" and a[0][2][2][0] == "Sx" \
+                and a[1][2] == tab(a[0][2][1]) and a[2][2] == tab(a[0][2][2][1]):
+            return app(NS + "inverse", a[0][:2], a[1][:2], a[2][:2]) + (("V", a[0][2][2][1], ("Sx", a[0][2][1])),)
         if f == "Some" and len(a) == 1:
             return app("some", a[0][:2]) + (("Opt", a[0][2]),)
         if f == "std::ptr::eq" and len(args) == 2 and "ptr_eq" in self.spec:
@@ -1574,13 +1969,20 @@ class MulEmit(Emit):
         sc2 = sc.bind(rn, var, ("I", d)) if rn else sc
         body = self.closure_body(clo[2], sc2)
         bt = body[0]
-        t = "Vector.ofFn fun %s : Fin %s =>" % (var, d)
+        t = "Vector.ofFn fun %s : Fin %s =>" % (var, pd(d))
         t = t + " " + bt if "\n" not in bt and len(bt) < 90 else t + "\n" + ind(bt)
         return (t, P_LOW, ("V", d, body[2]))
 
     def closure_body(self, b, sc):
         """value of a closure body; a body that also updates an outer accumulator is handled in `let`"""
-        t = self.ex3(b, sc)
+        was, was_raised = self.in_closure, self.closure_raised
+        self.in_closure, self.closure_raised = True, False
+        try:
+            t = self.ex3(b, sc)
+            if self.closure_raised:
+                t = (t[0], t[1], ("Exc", t[2]))
+        finally:
+            self.in_closure, self.closure_raised = was, was_raised
         if t[0].startswith(("let ", "match ", "if ")) or t[1] == P_LOW:
             if t[0].startswith("let ") or t[0].startswith("match "):
                 return ("(" + t[0] + ")", P_ATOM, t[2])
@@ -1592,9 +1994,13 @@ class MulEmit(Emit):
         if e[0] == "call" and e[1][0] == "path" and len(e[1][1]) == 2 and e[1][1][1] == "indexes" \
                 and e[1][1][0] in self.dims and not e[2]:
             return {"kind": "idx", "dim": self.dim(self.dims[e[1][1][0]]), "src": None, "filter": None, "map": None}
+        if e[0] == "macro" and e[1] == "izip" and len(e[2]) >= 2:
+            return self.zipped(e[2], sc, e)
         if e[0] != "mcall":
             return None
         recv, name, args = e[1], e[2], e[3]
+        if name == "zip" and len(args) == 1 and self.iterator(recv, sc) is None:
+            return self.zipped([recv, args[0]], sc, e)
         if name in ("iter_with", "into_iter") and not args:
             r = self.ex3(recv, sc)
             if r[2][0] == "V":
@@ -1628,6 +2034,21 @@ class MulEmit(Emit):
                     sc2 = sc2.bind(vp[1], "%s[%s]" % (it["src"], var), it["elem"])
                 elif vp[0] != "pwild":
                     self.fail("closure parameter of an `iter_with` chain")
+            elif it["kind"] == "zip":
+                if pat[0] == "pref":
+                    pat = pat[1]
+                if pat[0] != "ptuple" or len(pat[1]) != len(it["srcs"]):
+                    self.fail("closure parameter of a zipped chain")
+                var = "k"
+                while var in sc or any(var == (q[1][1] if q[0] == "pref" else q[1:2] and q[1]) for q in pat[1]):
+                    var += "_"
+                sc2 = sc
+                for q, src in zip(pat[1], it["srcs"]):
+                    q = q[1] if q[0] == "pref" else q
+                    if q[0] == "pid":
+                        sc2 = sc2.bind(q[1], "%s[%s]" % (src, var), S)
+                    elif q[0] != "pwild":
+                        self.fail("closure parameter of a zipped chain")
             else:
                 vp = pat[1] if pat[0] == "pref" else pat
                 if vp[0] != "pid":
@@ -1636,7 +2057,7 @@ class MulEmit(Emit):
                 sc2 = sc.bind(vp[1], var, it["elem"])
             body = self.closure_body(clo[2], sc2)
             if name == "filter":
-                if it["kind"] != "idx" or it["filter"] is not None:
+                if it["kind"] not in ("idx", "zip") or it["filter"] is not None:
                     self.fail("`.filter` in this position")
                 if body[2] != B:
                     self.fail("non-boolean filter")
@@ -1646,9 +2067,18 @@ class MulEmit(Emit):
             return it
         return None
 
+    def zipped(self, parts, sc, e):
+        """`izip!(a, b, &c)` / `a.zip(&c)` over tables (or `product2_iter` results) of one shape: the k-th item
+        is the tuple of the k-th entries"""
+        rs = [self.ex3(x, sc) for x in parts]
+        if any(r[2][0] != "V" or r[2][2] != S for r in rs) or len({r[2][1] for r in rs}) != 1:
+            self.fail("zip of `%s`" % describe(e))
+        return {"kind": "zip", "dim": self.dim(rs[0][2][1]), "srcs": [paren(r[:2], P_ATOM) for r in rs],
+                "src": None, "filter": None, "map": None}
+
     def lam(self, it, what):
         var, body = it[what]
-        t = "fun %s : Fin %s => %s" % (var, it["dim"], body[0])
+        t = "fun %s : Fin %s => %s" % (var, pd(it["dim"]), body[0])
         return t
 
     def iter_final(self, e, sc):
@@ -1676,14 +2106,20 @@ class MulEmit(Emit):
             if f[0] != "path" or f[1] not in (["<V>", "min"], ["<V>", "max"], ["V", "min"], ["V", "max"]):
                 self.fail("reduction function `%s`" % describe(f))
             which = f[1][1]
-            if it["map"] is None or it["kind"] != "idx" or it["map"][1][2] != S:
+            if it["map"] is None or it["kind"] not in ("idx", "zip") or it["map"][1][2] != S:
                 self.fail("`.reduce()` over this iterator shape")
             if name == "unwrap" and not args and it["filter"] is None:
                 return ("Tab.reduce%s (Vector.ofFn %s)" % (which.capitalize(), self.lam(it, "map")), P_APP, S)
+            if name == "unwrap" and not args and it["filter"] is not None:
+                # `.filter(..).map(..).reduce(f).unwrap()` panics when nothing passes the filter; as for an empty
+                # domain (Tab.reduce) the model's value there is NaN
+                t = "Tab.reduceL Scalar.%s (((List.finRange %s).filter %s).map %s) (Tab.nanOf α)" % (
+                    which, pd(it["dim"]), self.lam(it, "filter"), self.lam(it, "map"))
+                return (t, P_APP, S)
             if name == "unwrap_or" and len(args) == 1 and it["filter"] is not None:
                 dflt = self.ex3(args[0], sc)
                 t = "Tab.reduceL Scalar.%s (((List.finRange %s).filter %s).map %s) %s" % (
-                    which, it["dim"], self.lam(it, "filter"), self.lam(it, "map"), paren(dflt[:2], P_ATOM))
+                    which, pd(it["dim"]), self.lam(it, "filter"), self.lam(it, "map"), paren(dflt[:2], P_ATOM))
                 return (t, P_APP, S)
             self.fail("`.reduce(..).%s(..)` over this iterator shape" % name)
         return None
@@ -1739,12 +2175,48 @@ class MulEmit(Emit):
         if i == len(stmts):
             if tail is None:
                 return self.no_tail(sc)
+            if self.spec.get("panic_none") and not self.in_closure:
+                v = self.ex3(tail, sc)
+                return v[:2] if v[2][0] == "Opt" else app("some", v[:2])
+            if self.in_closure and self.closure_raised:
+                return app("Except.ok", self.ex3(tail, sc)[:2])
+            if self.except_mode and not self.in_closure and not self.in_loop:
+                v = self.ex3(tail, sc)
+                return v[:2] if v[2][0] == "Exc" else app("Except.ok", v[:2])
             return self.ex(tail, sc)
         s = stmts[i]
         k = s[0]
 
         def rest(sc2):
             return self.seq(stmts, i + 1, tail, sc2, deferred)
+        if k == "expr" and s[1][0] == "try":
+            v = self.ex3(s[1][1], sc)
+            if v[2][0] != "Exc" or not self.except_mode:
+                self.fail("`?` on a value of kind %r" % (v[2],))
+            return self.bind_exc(v, "_", rest(sc))
+        if k == "let" and s[2] is not None and s[2][0] == "try" and s[1][0] == "pid":
+            v = self.ex3(s[2][1], sc)
+            n = s[1][1]
+            if v[2][0] == "Exc" and self.except_mode:
+                return self.bind_exc(v, lname(n), rest(sc.bind(n, lname(n), v[2][1], len(s[1]) > 2)))
+            if v[2][0] == "Opt" and v[2][1] is not None and self.spec["rty"].startswith("Option "):
+                r = rest(sc.bind(n, lname(n), v[2][1], len(s[1]) > 2))
+                return ("match " + v[0] + " with\n| none => none\n| some " + lname(n) + " =>\n" + ind(r[0]), P_LOW)
+            self.fail("`?` on a value of kind %r" % (v[2],))
+        if k == "let" and s[2] is not None and s[1][0] == "pstruct" and s[1][1] == ["OpinionBase"] \
+                and s[1][2] == [("simplex", None)] and s[1][3]:
+            # `let OpinionBase { simplex, .. } = e;`
+            v = self.ex3(s[2], sc)
+            if v[2][0] == "Op":
+                val = app("Opinion.simplex", v[:2])
+                return self.mklet("simplex", val, rest(sc.bind("simplex", "simplex", ("Sx", v[2][1]))))
+            if v[2][0] == "Exc" and v[2][1][0] == "Op" and self.in_closure and self.except_mode:
+                # a panic inside the closure of `from_fn`: the closure yields an `Except`, collected by `sequenceE`
+                self.closure_raised = True
+                r = self.mklet("simplex", ("Opinion.simplex t_", P_APP),
+                               rest(sc.bind("simplex", "simplex", ("Sx", v[2][1][1]))))
+                return ("match " + v[0] + " with\n| .error e => .error e\n| .ok t_ =>\n" + ind("(" + r[0] + ")"), P_LOW)
+            self.fail("destructuring of a value of kind %r" % (v[2],))
         if k == "let":
             if s[1][0] != "pid" or s[2] is None:
                 self.fail("`let` form (pattern / deferred initialisation)")
@@ -1763,6 +2235,11 @@ class MulEmit(Emit):
             v = self.ex3(s[2], sc)
             if v[2] == ("Opt", None):
                 self.fail("untyped `None`")
+            if v[2][0] == "V" and v[2][2][0] == "Exc" and self.except_mode and not self.in_closure:
+                # a container built by a closure that may panic: first error in index order, else the container
+                vt = "(" + v[0] + ")" if v[1] < P_ATOM else v[0]
+                r = rest(sc.bind(n, lname(n), ("V", v[2][1], v[2][2][1]), mutable))
+                return ("match sequenceE " + vt + " with\n| .error e => .error e\n| .ok " + lname(n) + " =>\n" + ind("(" + r[0] + ")"), P_LOW)
             return self.mklet(lname(n), v[:2], rest(sc.bind(n, lname(n), v[2], mutable)))
         if k == "assign" and s[2][0] == "path" and len(s[2][1]) == 1:
             n = s[2][1][0]
@@ -1789,6 +2266,24 @@ class MulEmit(Emit):
                 if ty[0] == "V" and ty[2] == S:
                     # a `&mut` argument: the callee's final value of the parameter is the new value here
                     return self.mklet(text, app(NS + "normalize_prob_dist", (text, P_ATOM)), rest(sc.bind(n, text, ty, True)))
+        if k == "assign" and s[1] == "=" and s[2][0] == "un" and s[2][1] == "*" and s[2][2][0] == "path" \
+                and len(s[2][2][1]) == 1 and s[2][2][1][0] in sc.mut:
+            n = s[2][2][1][0]                   # `*lhs = e;` through a `&mut` parameter
+            text, ty = sc[n]
+            v = self.ex3(s[3], sc)
+            if v[2] == ty:
+                return self.mklet(text, v[:2], rest(sc.bind(n, text, ty, True)))
+            if v[2] == ("Opt", ty) and self.spec.get("panic_none"):
+                r = rest(sc.bind(n, text, ty, True))
+                return ("match " + v[0] + " with\n| none => none\n| some " + text + " =>\n" + ind(r[0]), P_LOW)
+            self.fail("assignment `*%s = ..` of a value of kind %r" % (n, v[2]))
+        if k == "ifs" and s[1][3] is None and self.spec.get("panic_none"):
+            b = s[1][2]
+            if b[2] is None and len(b[1]) == 1 and b[1][0][0] == "expr" and b[1][0][1][0] == "macro" \
+                    and b[1][0][1][1] == "panic":
+                c = self.ex3(s[1][1], sc)       # `if c { panic!(..); }` : the panic is the value `none`
+                r = rest(sc)
+                return (self.mkif(c[:2], ("none", P_ATOM), r, r[0].startswith("if ")), P_LOW)
         if k == "ifs" and s[1][3] is None:
             b = s[1][2]
             if b[2] is None and len(b[1]) == 1 and b[1][0][0] == "expr" and b[1][0][1][0] == "return" \
@@ -1799,9 +2294,18 @@ class MulEmit(Emit):
                 return (self.mkif(c[:2], v[:2], r, r[0].startswith("if ")), P_LOW)
         self.fail("statement form `%s`" % describe(s))
 
+    def bind_exc(self, v, name, r):
+        """`E?; rest` : inside a loop body `Except.bind E fun _ => rest` (no auxiliary matcher, so that the fold
+        can be compared syntactically with the model's `checkEntries`), elsewhere a `match` as in the model"""
+        if self.in_loop:
+            return ("Except.bind %s fun %s =>\n%s" % (paren(v[:2], P_ATOM), name, ind(r[0])), P_LOW)
+        return ("match " + v[0] + " with\n| .error e => .error e\n| .ok " + name + " =>\n" + ind(r[0]), P_LOW)
+
     def no_tail(self, sc):
         rv = self.spec.get("result_var")
         if rv and rv in sc:
+            if self.spec.get("panic_none"):
+                return ("some " + sc[rv][0], P_APP)
             return (sc[rv][0], P_ATOM)
         self.fail("block without a value")
 
@@ -1825,7 +2329,47 @@ class MulEmit(Emit):
         stripped = ("block", [st for st in b[1] if st[0] != "assign"], b[2])
         return (("call", e[1], [("closure", clo[1], stripped)]), ups[0][2][1][0], self.dim(self.dims[e[1][1][0]]))
 
+    def for_loop_exc(self, s, rest, sc):
+        """`for (i, &x) in t.iter_with() { check(x)?; acc += x; }` : a left fold in the Except monad"""
+        pat, it, body = s[1], s[2], s[3]
+        itd = self.iterator(it, sc)
+        if itd is None or itd["kind"] not in ("idx", "pairs") or itd["map"] or itd["filter"] or not self.except_mode:
+            self.fail("`for` with `?` over this iterator / in this function")
+        d = itd["dim"]
+        if itd["kind"] == "pairs":
+            if pat[0] != "ptuple" or len(pat[1]) != 2:
+                self.fail("`for` pattern over `iter_with()`")
+            var, rn = self.idx_binder(pat[1][0], d)
+            vp = pat[1][1][1] if pat[1][1][0] == "pref" else pat[1][1]
+            if rn is None or vp[0] != "pid":
+                self.fail("`for` pattern over `iter_with()`")
+            sc_i = sc.bind(rn, var, ("I", d)).bind(vp[1], "%s[%s]" % (itd["src"], var), itd["elem"])
+        else:
+            var, rn = self.idx_binder(pat, d)
+            sc_i = sc.bind(rn, var, ("I", d)) if rn else sc
+        if body[2] is not None:
+            self.fail("`for` body with a value")
+        top = [st for st in body[1] if st[0] == "assign"]
+        if sum(1 for _ in walk_kind(body, "assign")) != len(top) or not top:
+            self.fail("`for` body: assignments must be top-level statements of the body")
+        names = {st[2][1][0] if st[2][0] == "path" and len(st[2][1]) == 1 else None for st in top}
+        if len(names) != 1 or None in names:
+            self.fail("`for` body updating more than one variable")
+        v = names.pop()
+        if v not in sc.mut or sc[v][1] != S:
+            self.fail("`for` body updating `%s` (not a `mut` scalar local)" % v)
+        text = sc[v][0]
+        was = self.in_loop
+        self.in_loop = True
+        inner = self.seq(body[1], 0, ("call", ("path", ["Ok"]), [("path", [v])]), sc_i.bind(v, text, S, True), set())
+        self.in_loop = was
+        fold = "(List.finRange %s).foldlM (m := Except Label) (fun (%s : α) (%s : Fin %s) =>\n%s) %s" % (
+            d, text, var, d, ind(inner[0], 4), text)
+        return self.bind_exc((fold, P_APP, ("Exc", S)), text, rest(sc.bind(v, text, S, True)))
+
     def for_loop(self, s, rest, sc):
+        if contains_try(s[3]):
+            return self.for_loop_exc(s, rest, sc)
         pat, it, body = s[1], s[2], s[3]
         itd = self.iterator(it, sc)
         if itd is None or itd["kind"] != "idx" or itd["map"] or itd["filter"]:
@@ -1881,6 +2425,7 @@ class MulEmit(Emit):
             self.selfkind = self.self_type()[0] if self.item.ctx else None
         except Unsupported:
             self.selfkind = None
+        self.param_rust = {}
         for prm in self.item.params:
             pat, ty = prm[0], prm[1]
             if pat == "self":
@@ -1894,7 +2439,8 @@ class MulEmit(Emit):
             if pat[0] != "pid":
                 self.fail("parameter pattern")
             n = pat[1]
-            t = self.rust_type(ty)
+            t = self.spec.get("param_kinds", {}).get(n) or self.rust_type(ty)
+            self.param_rust[n] = self.rust_class(ty)
             sc = sc.bind(n, lname(n), t, len(pat) > 2 or re.match(r"&('\w+ )?mut", ty) is not None)
             binders.append((lname(n), t))
             for extra_after, btext, _ in self.spec.get("extra", ()):
@@ -1902,12 +2448,16 @@ class MulEmit(Emit):
                     binders.append((btext, None))
         body = self.item.body
         t = self.seq(body[1], 0, body[2], sc, set())
+        dre = r"\b(?:%s)\b" % "|".join(ALL_DIMS)
         for _, t_ in binders:
-            for d in re.findall(r"\b[nm]\b", lean_type(t_)) if t_ else []:
+            for d in re.findall(dre, lean_type(t_)) if t_ else []:
                 self.used_dims.add(d)
-        for d in re.findall(r"\b[nm]\b", self.spec["rty"]):
+        for d in re.findall(dre, self.spec["rty"]):
             self.used_dims.add(d)
-        dims = "".join(" {%s : Nat}" % d for d in ("n", "m") if d in self.used_dims)
+        used = set()
+        for d in self.used_dims:
+            used |= set(re.findall(dre, d))
+        dims = "".join(" {%s : Nat}" % d for d in ALL_DIMS if d in used)
         bs = " ".join("(%s : %s)" % (n, lean_type(t_)) if t_ else n for n, t_ in binders)
         return "def %s {α : Type} [Scalar α]%s %s: %s :=\n%s\n" % (lean_name, dims, bs + " " if bs else "", self.spec["rty"], ind(t[0]))
 
@@ -1938,75 +2488,257 @@ MUL_TARGETS = [
     ("uncertainty_maximized", "uncertainty_maximized", r"MaxUncertainty < Idx , V , T > for Simplex",
      {"rty": "Simplex α n"}),
     ("Simplex_discount", "discount", r"Discount < T , V > for Simplex", {"rty": "Simplex α n", "dims": {"T": "n"}}),
+    ("multi_check_simplex", "check_simplex", r"^$", {"rty": "Except Label Unit"}),
+    ("multi_check_base_rate", "check_base_rate", r"^$", {"rty": "Except Label Unit"}),
+    ("Simplex_try_new", "try_new", SX, {"rty": "Except Label (Simplex α n)"}),
+    ("Simplex_new", "new", SX, {"rty": "Except Label (Simplex α n)"}),
+    ("Opinion_try_new", "try_new", OPN, {"rty": "Except Label (Opinion α n)"}),
+    ("Opinion_new", "new", OPN, {"rty": "Except Label (Opinion α n)"}),
+    ("Opinion_normalized", "normalized", OPN, {"rty": "Opinion α n"}),
     ("compute_simlex", "compute_simlex", r"^$", {"rty": "Simplex α n"}),
     ("compute_base_rate", "compute_base_rate", r"^$",
      {"rty": "Tab α n", "dims": {"T": "n"}, "extra": [("op", "(same : Bool)", None)],
       "ptr_eq": (["lhs.base_rate", "rhs.base_rate"], "same")}),
     ("fuse", "fuse", r"Fuse < OpinionRef < 'a , T , V > , OpinionRef < 'a , T , V > , Idx > for FuseOp",
      {"rty": "Opinion α n", "extra": [("self", "(same : Bool)", None)], "same_arg": "same"}),
+    ("OpinionRef_discount", "discount", r"Discount < T , V > for OpinionRef", {"rty": "Opinion α n", "dims": {"T": "n"}}),
+    ("Opinion_discount", "discount", r"Discount < T , V > for Opinion <", {"rty": "Opinion α n", "dims": {"T": "n"}}),
+    ("fuse_ref_simplex", "fuse", r"Fuse < OpinionRef < 'a , T , V > , & 'a Simplex < T , V > , Idx > for FuseOp",
+     {"rty": "Opinion α n"}),
+    ("fuse_opinion_simplex", "fuse", r"Fuse < & Opinion < T , V > , & Simplex < T , V > , Idx > for FuseOp",
+     {"rty": "Opinion α n"}),
+    ("fuse_opinion_opinion", "fuse", r"Fuse < & Opinion < T , V > , & Opinion < T , V > , Idx > for FuseOp",
+     {"rty": "Opinion α n", "extra": [("self", "(same : Bool)", None)], "same_arg": "same"}),
+    ("fuse_simplex_simplex", "fuse", r"Fuse < & Simplex < T , V > , & Simplex < T , V > , Idx > for FuseOp",
+     {"rty": "Option (Simplex α n)", "panic_none": True}),
+    ("fuse_assign_opinion_ref", "fuse_assign", r"FuseAssign < Opinion < T , V > , OpinionRef < 'a , T , V > , Idx > for FuseOp",
+     {"rty": "Opinion α n", "extra": [("self", "(same : Bool)", None)], "same_arg": "same", "result_var": "lhs"}),
+    ("fuse_assign_opinion_opinion", "fuse_assign", r"FuseAssign < Opinion < T , V > , & Opinion < T , V > , Idx > for FuseOp",
+     {"rty": "Opinion α n", "extra": [("self", "(same : Bool)", None)], "same_arg": "same", "result_var": "lhs"}),
+    ("fuse_assign_opinion_simplex", "fuse_assign", r"FuseAssign < Opinion < T , V > , & Simplex < T , V > , Idx > for FuseOp",
+     {"rty": "Opinion α n", "result_var": "lhs"}),
+    ("fuse_assign_simplex_simplex", "fuse_assign", r"FuseAssign < Simplex < T , V > , & Simplex < T , V > , Idx > for FuseOp",
+     {"rty": "Option (Simplex α n)", "panic_none": True, "result_var": "lhs"}),
     ("mbr", "mbr", r"^$", {"rty": "Option (Tab α m)", "cond": {"Cond": "m"}}),
     ("projections", "projections", r"^$", {"rty": "Vector (Tab α m) n", "cond": {"Cond": "m"}, "dims": {"Cond": "n"}}),
     ("deduce_of", "deduce_of", r"^$", {"rty": "Opinion α m", "cond": {"Cond": "m"}}),
     ("inverse", "inverse", r"InverseCondition < X , Y , T , U , V > for Cond",
      {"rty": "Vector (Simplex α n) m", "cond": {"Cond": "m"}}),
+    ("OpinionRef_deduce", "deduce", r"Deduction < X , Y , & 'a Cond , U > for OpinionRef",
+     {"rty": "Option (Opinion α m)", "cond": {"Cond": "m"}}),
+    ("OpinionRef_deduce_with", "deduce_with", r"Deduction < X , Y , & 'a Cond , U > for OpinionRef",
+     {"rty": "Opinion α m", "cond": {"Cond": "m"}, "param_kinds": {"f": ("Thunk", ("V", "m", S))}}),
+    ("Opinion_deduce", "deduce", r"Deduction < X , Y , & 'a Cond , U > for & 'a Opinion",
+     {"rty": "Option (Opinion α m)", "cond": {"Cond": "m"}}),
+    ("Opinion_deduce_with", "deduce_with", r"Deduction < X , Y , & 'a Cond , U > for & 'a Opinion",
+     {"rty": "Opinion α m", "cond": {"Cond": "m"}, "param_kinds": {"f": ("Thunk", ("V", "m", S))}}),
+    ("abduce_with", "abduce_with", r"Abduction < & 'a Cond , X , Y , T , U > for & 'a Simplex",
+     {"rty": "Opinion α n", "cond": {"Cond": "m"}}),
+    ("abduce", "abduce", r"Abduction < & 'a Cond , X , Y , T , U > for & 'a Simplex",
+     {"rty": "Option (Opinion α n)", "cond": {"Cond": "m"}}),
+    ("OpinionRef_abduce_with", "abduce_with", r"Abduction < & 'a Cond , X , Y , T , U > for OpinionRef",
+     {"rty": "Opinion α n", "cond": {"Cond": "m"}}),
+    ("OpinionRef_abduce", "abduce", r"Abduction < & 'a Cond , X , Y , T , U > for OpinionRef",
+     {"rty": "Option (Opinion α n)", "cond": {"Cond": "m"}}),
+    ("Opinion_abduce_with", "abduce_with", r"Abduction < & 'a Cond , X , Y , T , U > for & 'a Opinion",
+     {"rty": "Opinion α n", "cond": {"Cond": "m"}}),
+    ("Opinion_abduce", "abduce", r"Abduction < & 'a Cond , X , Y , T , U > for & 'a Opinion",
+     {"rty": "Option (Opinion α n)", "cond": {"Cond": "m"}}),
+]
+PROD2 = r"Product2 < Opinion1dRef < 'a , V , D0 > , Opinion1dRef < 'a , V , D1 > > for Opinion < MArr2 < V , D0 , D1 > , V >"
+PROD3 = (r"Product3 < Opinion1dRef < 'a , V , D0 > , Opinion1dRef < 'a , V , D1 > , Opinion1dRef < 'a , V , D2 > > "
+         r"for Opinion < MArr3 < V , D0 , D1 , D2 > , V >")
+NL_TARGETS = [
+    ("product2", "product2", PROD2,
+     {"rty": "Except Label (Opinion α (n0 * n1))", "dims": {"D0": "n0", "D1": "n1", "MArr2": "n0 * n1"}}),
+    ("product3", "product3", PROD3,
+     {"rty": "Except Label (Opinion α (n0 * n1 * n2))",
+      "dims": {"D0": "n0", "D1": "n1", "D2": "n2", "MArr3": "n0 * n1 * n2"}}),
+    ("Simplex1d_into_opinion", "into_opinion", r"^impl < V , const N : usize > Simplex1d < V , N >",
+     {"rty": "Except Label (Opinion α n)", "dims": {"N": "n"}}),
 ]
 
 
-def gen_mul(src_dir):
-    fname = "mul.rs"
-    text = open(os.path.join(src_dir, fname)).read()
-    items = scan_items(text, fname)
-    defs, spans = [], check_guards(items, fname, text)
-    for lean_name, rust, ctx, spec in MUL_TARGETS:
-        it = find(items, rust, ctx)
-        span = text[it.span[0]:it.span[1]]
-        spans.append(span)
-        d = MulEmit(it, spec).define(lean_name)
-        line = text.count("\n", 0, it.span[0]) + 1
-        defs.append("/-- `%s` (src/%s:%d), sha256 of the item text %s -/\n%s"
-                    % (rust, fname, line, sha(span)[:16], d))
-    head = ("/-\n  GENERATED by /verif/tools/rs2lean.py from src/%s -- do not edit, regenerated on every run.\n"
-            "  source-span sha256: %s\n"
-            "  Conventions: a container type T/U/Cond over index type Idx|X ↦ size n, over Y ↦ size m;\n"
-            "  T::from_fn(|i| e), T::map(|i| e) ↦ Vector.ofFn fun i : Fin n => e;  T::indexes().map(f).sum() ↦\n"
-            "  Tab.sumIter (Vector.ofFn f);  .reduce(<V>::min).unwrap() ↦ Tab.reduceMin (Vector.ofFn f);\n"
-            "  `for i in T::indexes() { acc = .. }` ↦ (List.finRange n).foldl;  `for i .. { p[i] /= s }` ↦\n"
-            "  Vector.ofFn fun i => p[i] / s;  a `&mut` parameter is returned;  `if c { return e; }` ↦ if c then e else ..;\n"
-            "  `match op { A | B if g => e, .. }` ↦ match op with | A | B => if g then e else ..\n"
-            "  Tie theorems: SLV/Gen/MulTie.lean.\n-/\n"
-            "import SLV.Model.Fuse\nimport SLV.Model.Cond\nnamespace SLV.Gen.Mul\nopen Scalar\n\n") % (fname, sha("\n".join(spans)))
-    return head + "\n".join(defs) + "\nend SLV.Gen.Mul\n"
+APPROX_TARGETS = [
+    ("is_in_range", "is_in_range", r"^$", {"emit": BaseEmit}),
+    ("in_unit_interval", "in_unit_interval", r"^$", {"emit": BaseEmit, "inline": ["is_in_range"]}),
+    ("is_one", "is_one", r"^$", {"emit": BaseEmit}),
+    ("is_zero", "is_zero", r"^$", {"emit": BaseEmit}),
+]
+ERRORS_TARGETS = [
+    ("check_unit_interval", "check_unit_interval", r"^$", {"emit": BaseEmit, "label_param": "label"}),
+    ("check_is_one", "check_is_one", r"^$", {"emit": BaseEmit, "label_param": "label"}),
+]
+CONVERT_TARGETS = [
+    ("BOpinion_into_Opinion1d", "from", r"impl From < BOpinion < \$ft > > for Opinion1d < \$ft , 2 >$", {"emit": ConvEmit}),
+    ("Opinion1d_into_BOpinion", "from", r"impl From < Opinion1d < \$ft , 2 > > for BOpinion < \$ft >$", {"emit": ConvEmit}),
+    ("Opinion1d_ref_into_BOpinion", "from", r"impl From < & Opinion1d < \$ft , 2 > > for BOpinion < \$ft >$", {"emit": ConvEmit}),
+]
+for _t in BI_TARGETS:
+    _t[3].setdefault("emit", BiEmit)
+LB_TARGETS = [
+    ("product2_labeled", "product2", r"Product2 < OpinionRefD1 < 'a , D0 , V > , OpinionRefD1 < 'a , D1 , V > > for OpinionD2",
+     {"rty": "Opinion α (n0 * n1)", "dims": {"D0": "n0", "D1": "n1", "MArrD2": "n0 * n1"}}),
+    ("product3_labeled", "product3", r"Product3 < OpinionRefD1 < 'a , D0 , V > , OpinionRefD1 < 'a , D1 , V > , OpinionRefD1 < 'a , D2 , V > > for OpinionD3",
+     {"rty": "Opinion α (n0 * n1 * n2)", "dims": {"D0": "n0", "D1": "n1", "D2": "n2", "MArrD3": "n0 * n1 * n2"}}),
+]
+MERGE = r"MergeJointConditions2 < V , X1 , X2 , X1X2 , Y , CYX1 , CYX2 , TX1 , TX2 , TY , U > for CX1X2Y"
+MERGE_TARGETS = [
+    ("merge_cond2_unlabeled", "merge_cond2", MERGE,
+     {"rty": "Except Label (Vector (Simplex α m) (n1 * n2))", "cond": {"CYX1": "m", "CYX2": "m"}, "family": "unlabeled"}),
+    ("merge_cond2_labeled", "merge_cond2", MERGE,
+     {"rty": "Vector (Simplex α m) (n1 * n2)", "cond": {"CYX1": "m", "CYX2": "m"}, "family": "labeled"}),
+]
+for _t in MUL_TARGETS + NL_TARGETS + LB_TARGETS + MERGE_TARGETS:
+    _t[3].setdefault("emit", MulEmit)
+
+OUTPUTS = {
+    "Bi.lean": {
+        "ns": "SLV.Gen", "imports": ["SLV.Model.Bi"],
+        "units": [("approx_ext.rs", APPROX_TARGETS, []), ("errors.rs", ERRORS_TARGETS, []),
+                  ("bi.rs", BI_TARGETS, ["bi.rs"]), ("convert.rs", CONVERT_TARGETS, ["bi.rs", "mul.rs"])],
+        "doc": "  Conventions: self ↦ x, rhs ↦ y, cond[i] ↦ cᵢ : α × α × α (b, d, u); Self::new / Self::try_new ↦\n"
+               "  BOp.tryNew (panic ≙ error); `E?;` / `E.unwrap();` ↦ match on Except; an `if` statement that only\n"
+               "  assigns deferred `let`s receives a copy of the continuation in every branch.\n"
+               "  Tie theorems: SLV/Gen/BiTie.lean.\n"},
+    "Mul.lean": {
+        "ns": "SLV.Gen.Mul", "imports": ["SLV.Model.Fuse", "SLV.Model.Cond", "SLV.Model.Prod"],
+        "units": [("mul.rs", MUL_TARGETS, ["mul.rs"]), ("mul/non_labeled.rs", NL_TARGETS, ["mul.rs"]),
+                  ("mul/labeled.rs", LB_TARGETS, ["mul.rs"]), ("mul.rs", MERGE_TARGETS, ["mul.rs"])],
+        "doc": "  Conventions: a container type T/U/Cond over index type Idx|X ↦ size n, over Y ↦ size m;\n"
+               "  T::from_fn(|i| e), T::map(|i| e) ↦ Vector.ofFn fun i : Fin n => e;  T::indexes().map(f).sum() ↦\n"
+               "  Tab.sumIter (Vector.ofFn f);  .reduce(<V>::min).unwrap() ↦ Tab.reduceMin (Vector.ofFn f);\n"
+               "  `for i in T::indexes() { acc = .. }` ↦ (List.finRange n).foldl;  `for i .. { p[i] /= s }` ↦\n"
+               "  Vector.ofFn fun i => p[i] / s;  a `&mut` parameter is returned;  `if c { return e; }` ↦ if c then e else ..;\n"
+               "  `match op { A | B if g => e, .. }` ↦ match op with | A | B => if g then e else ..\n"
+               "  Tie theorems: SLV/Gen/MulTie.lean.\n"},
+}
 
 
 # ------------------------------------------------------------------------------------------------
 # 9. command line
 # ------------------------------------------------------------------------------------------------
+def find_lean_root(out_dir):
+    d = os.path.abspath(out_dir)
+    while d != os.path.dirname(d):
+        if os.path.exists(os.path.join(d, "lakefile.toml")) or os.path.exists(os.path.join(d, "lakefile.lean")):
+            return d
+        d = os.path.dirname(d)
+    return None
+
+
+def lean_errors(text, lean_root, tag):
+    """elaborate `text` with `lake env lean`; -> {lean def name: first error line} ('?' for unattributable errors),
+    or None when Lean cannot be run"""
+    import subprocess, tempfile
+    fd, path = tempfile.mkstemp(prefix="rs2lean_%s_" % tag, suffix=".lean")
+    try:
+        with os.fdopen(fd, "w") as f:
+            f.write(text)
+        try:
+            pr = subprocess.run(["lake", "env", "lean", path], cwd=lean_root, stdout=subprocess.PIPE,
+                                stderr=subprocess.STDOUT, text=True, timeout=600)
+        except (OSError, subprocess.TimeoutExpired) as e:
+            sys.stderr.write("rs2lean: validation skipped (%s)\n" % e)
+            return None
+        lines = text.split("\n")
+        bad = {}
+        for m in re.finditer(r"^%s:(\d+):\d+: error:? ?(.*)$" % re.escape(path), pr.stdout, flags=re.M):
+            ln = int(m.group(1))
+            name = "?"
+            for i in range(min(ln, len(lines)) - 1, -1, -1):
+                mm = re.match(r"def ([\w']+)", lines[i])
+                if mm:
+                    name = mm.group(1)
+                    break
+            bad.setdefault(name, m.group(2).strip() or "error")
+        if pr.returncode != 0 and not bad:
+            bad["?"] = pr.stdout.strip().split("\n")[0][:200]
+        return bad
+    finally:
+        try:
+            os.remove(path)
+        except OSError:
+            pass
+
+
+def validated(fn, src_dir, out_dir, lean_root):
+    """generate `fn`; every definition that Lean rejects (ill-typed output of the translator) becomes a hole, so that
+    the generated MODULE always compiles and only the ties of the affected functions fail.  The verdict is cached
+    per generated text in <tmpdir>/rs2lean_validated.json."""
+    import json
+    text, holes = generate(fn, src_dir)
+    if lean_root is None:
+        return text, holes
+    import tempfile
+    cache_path = os.path.join(tempfile.gettempdir(), "rs2lean_validated.json")
+    try:
+        cache = json.load(open(cache_path))
+    except (OSError, ValueError):
+        cache = {}
+    key = fn + ":" + sha(text)
+    forced = cache.get(key)
+    if forced is None:
+        forced = {}
+        cur = text
+        for _ in range(6):
+            bad = lean_errors(cur, lean_root, fn.split(".")[0])
+            if bad is None:
+                return text, holes            # Lean not available: no validation
+            if not bad:
+                break
+            if "?" in bad and len(bad) == 1:
+                raise Fatal("Lean rejects the generated file outside any definition: %s" % bad["?"])
+            for name, msg in bad.items():
+                if name != "?":
+                    forced[name] = "the generated definition is rejected by Lean (%s)" % msg[:160]
+            cur, _ = generate(fn, src_dir, forced)
+        else:
+            raise Fatal("generated file still rejected by Lean after removing %s" % sorted(forced))
+        cache[key] = forced
+        if len(cache) > 400:
+            cache = dict(list(cache.items())[-200:])
+        try:
+            os.makedirs(out_dir, exist_ok=True)
+            with open(cache_path + ".tmp", "w") as f:
+                json.dump(cache, f)
+            os.replace(cache_path + ".tmp", cache_path)
+        except OSError:
+            pass
+    if forced:
+        return generate(fn, src_dir, forced)
+    return text, holes
+
+
 def main():
     ap = argparse.ArgumentParser(description=__doc__, formatter_class=argparse.RawDescriptionHelpFormatter)
-    ap.add_argument("--src", default="/repo/src", help="directory containing bi.rs and mul.rs")
+    ap.add_argument("--src", default="/repo/src", help="the crate's src directory")
     ap.add_argument("--out", default="/verif/lean/SLV/Gen", help="directory receiving Bi.lean / Mul.lean")
-    ap.add_argument("--only", choices=["bi", "mul"], help="translate one file only")
+    ap.add_argument("--only", choices=["bi", "mul"], help="produce one output file only")
     ap.add_argument("--stdout", action="store_true", help="print instead of writing files")
+    ap.add_argument("--validate", action="store_true",
+                    help="elaborate the generated text with `lake env lean` and turn rejected definitions into holes")
+    ap.add_argument("--lean-root", default=None, help="lake project used by --validate (default: found above --out, "
+                    "else /verif/lean)")
     a = ap.parse_args()
-    jobs = []
-    if a.only in (None, "bi"):
-        jobs.append(("Bi.lean", gen_bi))
-    if a.only in (None, "mul") and "gen_mul" in globals():
-        jobs.append(("Mul.lean", globals()["gen_mul"]))
+    jobs = [n for n in OUTPUTS if a.only is None or n.lower().startswith(a.only)]
+    lean_root = None
+    if a.validate:
+        lean_root = a.lean_root or find_lean_root(a.out) or ("/verif/lean" if os.path.isdir("/verif/lean") else None)
+        if lean_root is None:
+            sys.stderr.write("rs2lean: validation skipped (no lake project found)\n")
     rc = 0
-    outs = []
-    for fn, g in jobs:
+    for fn in jobs:
         try:
-            outs.append((fn, g(a.src)))
-        except Unsupported as e:
-            sys.stderr.write("rs2lean: %s\n" % e)
+            text, holes = validated(fn, a.src, a.out, lean_root)
+        except Fatal as e:
+            sys.stderr.write("rs2lean: FATAL %s: %s (file not written)\n" % (fn, e))
             rc = 2
-        except OSError as e:
-            sys.stderr.write("rs2lean: cannot read source: %s\n" % e)
-            rc = 2
-    if rc:
-        return rc       # nothing is written when any part fails: a stale generated file must not survive silently
-    for fn, text in outs:
+            continue
+        for src, name, why in holes:
+            sys.stderr.write("rs2lean: UNTRANSLATABLE %s fn %s: %s\n" % (src, name, why))
+        if holes and rc == 0:
+            rc = 3
         if a.stdout:
             sys.stdout.write(text)
             continue
@@ -2017,8 +2749,9 @@ def main():
             with open(path + ".tmp", "w") as f:
                 f.write(text)
             os.replace(path + ".tmp", path)
-        sys.stderr.write("rs2lean: wrote %s (%d bytes)%s\n" % (path, len(text), "" if old != text else " [unchanged]"))
-    return 0
+        sys.stderr.write("rs2lean: wrote %s (%d bytes, %d untranslatable)%s\n"
+                         % (path, len(text), len(holes), "" if old != text else " [unchanged]"))
+    return rc
 
 
 if __name__ == "__main__":
